@@ -56,6 +56,12 @@ CHECKS = {
         text="Decides (i) failure reporting: under injected stepper faults and on networks without steady state (accumulation, growth, non-autonomous drive, scan rows with k=0) the outcome must be a failure value / NaN row, never a state; (ii) bounded liveness in simulated time: stable networks with relaxation times 0.05..400 must report success within the 1000-poll budget. The clause 'a reported success equals the analytic steady state, fluxes balance, default/user y0, abs/rel norm' is evaluated on the same runs as plain seeded sampling.",
         note="Only the repo's real Scipy integrator (the loop under test lives there). Accuracy bound 1e-4*(1+|x*|) + 100*tolerance. The accuracy clause is a pure function of the input: sampled, not decided by scheduling/fault search.",
     ),
+    "C17": dict(
+        engine="session", category="exploration", design_ref="DESIGN.md §4.7",
+        technique="deterministic simulation of one interpreter session: seeded write/tick/read/query(/pickle) histories over documents and colliding file stems, simulated file clock for the generated sources (whole-second .pyc validation), bytecode cache on/off; oracle = the same document read in isolation",
+        text="REDUCED SCOPE: only the clause 'two documents read in one session do not interfere'. Seeded sessions write 2-4 small documents to paths whose stems are distinct, equal in different directories, or collapse to one generated-module name, advance a simulated file clock by 0/0.3/1/5 s, read them into handles and query (also after a pickle round trip, as every parallel routine does) every handle at every later point; each answer must equal that of the same document read in isolation (unique stem, empty cache dir, bytecode off; equivalence with a separate process checked at start).",
+        note="NOT decided: that the imported model reproduces the document (pure function of the document); an error the isolated read shares is not reported. A model becoming unpicklable after re-reading the SAME document is counted, not charged (one document, not two).",
+    ),
     "C18": dict(
         engine="mca", category="exploration", design_ref="DESIGN.md §4.5",
         technique="deterministic simulation of schedules: MCA routines run sequentially (shared model) and under a simulated pool (W in 1..16, seeded completion order), with content-keyed steady-state failures; before/after snapshots of the caller's model; closed-form sensitivities of power-law chains as value oracle",
@@ -82,6 +88,7 @@ ENGINES = [
     {"name": "fit", "path": "simkit/machines/fit.py", "serves_properties": ["C20"], "kind_free_text": "fit machine: SimMinimizer seam, fresh-model residual oracle, honesty runs"},
     {"name": "mca", "path": "simkit/machines/mca.py", "serves_properties": ["C18"], "kind_free_text": "MCA machine: sequential vs SimPool schedules, snapshots, analytic power-law sensitivities"},
     {"name": "scans", "path": "simkit/machines/scans.py", "serves_properties": ["C09"], "kind_free_text": "scan-schedule machine: SimPool (simkit/simpool.py), Faulty/ExactLinear integrators, independent-row oracle"},
+    {"name": "session", "path": "simkit/machines/session.py", "serves_properties": ["C17"], "kind_free_text": "session machine: simulated file clock, bytecode bit, colliding stems, isolated-read oracle"},
     {"name": "simtime", "path": "simkit/machines/simtime.py", "serves_properties": ["C04", "C14"], "kind_free_text": "simulator-history machine: reference model of time keeping, closed-form families (simkit/models.py), integrator seam (simkit/integrators.py)"},
     {"name": "views", "path": "simkit/machines/views.py", "serves_properties": ["C10"], "kind_free_text": "result-view machine: reader/mutator interleavings on a shared Simulation/Model, per-row fresh-model oracle"},
     {"name": "steady", "path": "simkit/machines/steady.py", "serves_properties": ["C15"], "kind_free_text": "steady-state machine: FaultyOde stepper seam, relaxation-time sweep, scan rows without steady state"},
